@@ -1,6 +1,7 @@
 (* Conversions between the line protocol and the extracted Coq datatypes.
    Nothing here computes a model result. *)
 open Models
+type string = Stdlib.String.t
 
 let rec pos_of_int (n : int) : positive =
   if n = 1 then XH
@@ -88,3 +89,28 @@ let rle_of_bytes (b : z list) : string =
     flush ();
     String.concat "," (List.rev !segs)
   end
+
+(* Coq strings (list-like datatype of 8-bit ascii records) <-> OCaml strings *)
+let coq_of_char (c : char) : ascii =
+  let n = Char.code c in
+  let b i = (n lsr i) land 1 = 1 in
+  Ascii (b 0, b 1, b 2, b 3, b 4, b 5, b 6, b 7)
+
+let char_of_coq (a : ascii) : char =
+  match a with Ascii (b0, b1, b2, b3, b4, b5, b6, b7) ->
+    let v b i = if b then 1 lsl i else 0 in
+    Char.chr (v b0 0 + v b1 1 + v b2 2 + v b3 3 + v b4 4 + v b5 5 + v b6 6 + v b7 7)
+
+let coq_of_string (s : string) : Models.string =
+  let r = ref EmptyString in
+  for i = String.length s - 1 downto 0 do r := String (coq_of_char s.[i], !r) done;
+  !r
+
+let string_of_coq (s : Models.string) : string =
+  let b = Buffer.create 64 in
+  let rec go s = match s with EmptyString -> () | String (c, r) -> Buffer.add_char b (char_of_coq c); go r in
+  go s; Buffer.contents b
+
+let string_of_hex (s : string) : string =
+  if s = "-" then "" else
+  String.init (String.length s / 2) (fun i -> Char.chr (int_of_string ("0x" ^ String.sub s (2 * i) 2)))
